@@ -391,6 +391,19 @@ def run_visit_guard(ctx: Ctx) -> RuleResult:
                         'object used for a second forest can hit entries of the first (ids are recycled after garbage collection) -- wrong, '
                         'missing or duplicated subtrees' % attr, construct='id-table-not-renewed:' + attr, module=ftp.module)
     res.require_instances(n_tab, 1, 'id-keyed tables of ForestToParseTree')
+    # ForestTransformer.transform starts from an empty result slot every time (the object is reused for several forests)
+    ftc = repo.cls('lark.parsers.earley_forest:ForestTransformer')
+    ftt = ftc.methods.get('transform')
+    if ftt is not None:
+        sn_t = ftt.self_name() or 'self'
+        slot = [a for a in ftt.node.body if isinstance(a, ast.Assign) and len(a.targets) == 1 and isinstance(a.targets[0], ast.Subscript)
+                and norm(a.targets[0].value) == '%s.data' % sn_t and isinstance(a.value, (ast.List, ast.Call)) and (not isinstance(a.value, ast.List) or not a.value.elts)]
+        visits = [s_ for s_ in ftt.node.body if isinstance(s_, ast.Expr) and isinstance(s_.value, ast.Call) and norm(s_.value.func) == '%s.visit' % sn_t]
+        ok = len(slot) == 1 and len(visits) == 1 and slot[0].lineno < visits[0].lineno
+        res.ob('%s %s' % (ftt.loc(), ftt.qual), 'transform() assigns a fresh, empty result slot before it walks the forest', ok)
+        if not ok:
+            res.finding(ftt, ftt.node, 'ForestTransformer.transform no longer assigns an empty list to its result slot before the walk: a transformer used for a second '
+                        'forest starts with the result of the first', construct='transform-result-reset')
     # the helper handed to on_cycle users: the slice starts at the node that closes the cycle (the position the search stopped at)
     gc_ = repo.func('lark.parsers.earley_forest:ForestVisitor.get_cycle_in_path')
     pn_ = gc_.positional_names()
@@ -636,6 +649,33 @@ def run_scan_buffer(ctx: Ctx) -> RuleResult:
                 cons = [g_ for g_ in pf.nested.values() if any(isinstance(y, ast.Name) and y.id == table for y in ast.walk(g_.node)) and g_ is not x]
                 ok2 = len(cons) == 1
                 why = 'nothing reads the table %s' % table
+                if ok2:
+                    # the consumer takes the entries out: the dead-end test reads the table's emptiness
+                    takes_out = any(isinstance(c_, ast.Call) and isinstance(c_.func, ast.Attribute) and c_.func.attr in ('pop', 'popitem') and norm(c_.func.value) == table
+                                    for c_ in ast.walk(cons[0].node)) or any(isinstance(d_, ast.Delete) and any(norm(t_).startswith(table + '[') for t_ in d_.targets)
+                                                                             for d_ in ast.walk(cons[0].node))
+                    ok2 = takes_out
+                    why = 'the consumer reads %s without taking the entries out: the table never empties, and the test for "nothing left" never holds again' % table
+                if ok2:
+                    # every entry taken out gets its families merged and joins the column: no path through the consumer's loop skips either
+                    from ..exprs import path_vectors
+                    loops_ = [l for l in ast.walk(cons[0].node) if isinstance(l, ast.For)
+                              and any(isinstance(y, ast.Name) and y.id == table for y in ast.walk(l.iter))]
+                    if len(loops_) == 1:
+                        lp_ = loops_[0]
+                        is_add = lambda y: isinstance(y, ast.Call) and isinstance(y.func, ast.Attribute) and y.func.attr == 'add' \
+                            and norm(y.func.value).startswith('columns[')
+                        vec = path_vectors(lp_.body, [is_add])
+                        fam = [l for l in ast.walk(lp_) if l is not lp_ and isinstance(l, (ast.For, ast.While))
+                               and any(isinstance(y, ast.Call) and isinstance(y.func, ast.Attribute) and y.func.attr == 'add_family' for y in ast.walk(l))]
+                        fam_cond = [t for l in fam for t, _pol in path_conditions(l) if any(t is y for y in ast.walk(lp_))]
+                        if vec and is_add and any(v != (1,) for v in vec):
+                            ok2 = False
+                            why = 'some path through the loop over the carried items does not add the item to its column exactly once (%s)' % sorted(vec)
+                        elif fam and fam_cond:
+                            ok2 = False
+                            why = 'the derivations of a carried item are merged only under a condition (%s): where the completer already put the ' \
+                                  'same item in the column, the derivation that ends before the ignored text is lost' % norm(fam_cond[0])
                 if ok2:
                     pcs = [st for st in ast.walk(pf.node) if isinstance(st, ast.Expr) and isinstance(st.value, ast.Call)
                            and norm(st.value.func).endswith('.predict_and_complete')]
